@@ -43,3 +43,49 @@ pub open spec fn readable(sb: Seq<u8>, m: raw::Member) -> bool {
     tbl(sb, m.original_name_offset) is Some
     && (m.original_file_offset != absent() ==> tbl(sb, m.original_file_offset) is Some)
 }
+
+// ---- lookup side: comparators and the sortedness part of the representation invariant ----
+pub open spec fn class_cmp(sb: Seq<u8>, c: raw::Class, name: Seq<char>) -> Ordering {
+    match tbl(sb, c.obfuscated_name_offset) { Some(s) => seq_cmp(s, name), None => Ordering::Greater }
+}
+
+// "class entries strictly sorted by obfuscated name" (C09; produced by the writer's BTreeMap -- assumed there)
+pub open spec fn classes_sorted(sb: Seq<u8>, cs: Seq<raw::Class>) -> bool {
+    (forall|i: int| 0 <= i < cs.len() ==> tbl(sb, (#[trigger] cs[i]).obfuscated_name_offset) is Some)
+    && (forall|i: int, j: int| 0 <= i < j < cs.len() ==>
+            seq_cmp(tbl(sb, (#[trigger] cs[i]).obfuscated_name_offset).unwrap(), tbl(sb, (#[trigger] cs[j]).obfuscated_name_offset).unwrap()) == Ordering::Less)
+}
+
+pub open spec fn member_cmp(sb: Seq<u8>, m: raw::Member, name: Seq<char>) -> Ordering {
+    match tbl(sb, m.obfuscated_name_offset) { Some(s) => seq_cmp(s, name), None => Ordering::Greater }
+}
+
+pub open spec fn member_name(sb: Seq<u8>, m: raw::Member) -> Seq<char> { tbl(sb, m.obfuscated_name_offset).unwrap() }
+
+// "member entries sorted by obfuscated name within a class"
+pub open spec fn members_sorted(sb: Seq<u8>, ms: Seq<raw::Member>) -> bool {
+    (forall|i: int| 0 <= i < ms.len() ==> tbl(sb, (#[trigger] ms[i]).obfuscated_name_offset) is Some)
+    && (forall|i: int, j: int| 0 <= i < j < ms.len() ==>
+            seq_cmp(member_name(sb, #[trigger] ms[i]), member_name(sb, #[trigger] ms[j])) != Ordering::Greater)
+}
+
+pub open spec fn member_params(sb: Seq<u8>, m: raw::Member) -> Seq<char> {
+    match tbl(sb, m.params_offset) { Some(s) => s, None => Seq::empty() }
+}
+
+pub open spec fn lex2(a: Ordering, b: Ordering) -> Ordering { if a != Ordering::Equal { a } else { b } }
+
+pub open spec fn member_cmp2(sb: Seq<u8>, m: raw::Member, name: Seq<char>, params: Seq<char>) -> Ordering {
+    match tbl(sb, m.obfuscated_name_offset) {
+        Some(s) => lex2(seq_cmp(s, name), seq_cmp(member_params(sb, m), params)),
+        None => Ordering::Greater,
+    }
+}
+
+// "by (name, params) in the by-params section"
+pub open spec fn members_sorted2(sb: Seq<u8>, ms: Seq<raw::Member>) -> bool {
+    (forall|i: int| 0 <= i < ms.len() ==> tbl(sb, (#[trigger] ms[i]).obfuscated_name_offset) is Some)
+    && (forall|i: int, j: int| 0 <= i < j < ms.len() ==>
+            lex2(seq_cmp(member_name(sb, #[trigger] ms[i]), member_name(sb, #[trigger] ms[j])),
+                 seq_cmp(member_params(sb, ms[i]), member_params(sb, ms[j]))) != Ordering::Greater)
+}
